@@ -52,7 +52,7 @@ Ok(e) == e.res = "ok"
 \* A transaction whose leading instructions only bring venue state up to date (instructions of the venue programs: no
 \* marginfi state is involved) is judged as its last instruction - on a real cluster that is the only way to use a
 \* venue-backed position once time has passed.
-VenueRefreshOps == {"drift_refresh", "kamino_refresh"}
+VenueRefreshOps == {"drift_refresh", "kamino_refresh", "solend_refresh"}
 Eff(e) ==
   IF e.ev = "tx" /\ Len(e.a.ixs) >= 2 /\ (\A k \in 1..(Len(e.a.ixs) - 1) : e.a.ixs[k].op \in VenueRefreshOps)
   THEN [e EXCEPT !.ev = e.a.ixs[Len(e.a.ixs)].op, !.a = e.a.ixs[Len(e.a.ixs)]]
